@@ -70,9 +70,9 @@ Section RangeRule.
   Lemma eval_pat_range fuel r i f u s p1 p2 :
     rk r = PRange -> pure_pat fuel (BPat i false) p1 -> pure_pat fuel (BPat i true) p2 ->
     exists u', eval_pat U step enter e fuel r i f u s =
-               inr (fst (range_step (p1 (line s)) (p2 (line s)) f), snd (range_step (p1 (line s)) (p2 (line s)) f), u', s).
+               PVal (fst (range_step (p1 (line s)) (p2 (line s)) f)) (snd (range_step (p1 (line s)) (p2 (line s)) f)) u' s.
   Proof.
-    intros Hk H1 H2. unfold eval_pat, range_step. rewrite Hk. destruct f.
+    intros Hk H1 H2. unfold eval_pat, run_pat, range_step. rewrite Hk. destruct f.
     - destruct (H2 u s) as [u' ->]. exists u'. reflexivity.
     - destruct (H1 u s) as [u1 ->]. destruct (p1 (line s)).
       + destruct (H2 u1 s) as [u2 ->]. exists u2. reflexivity.
@@ -285,23 +285,56 @@ Section Control.
   (* next in the body of a rule (at whatever depth inside U): the remaining rules are skipped, the
      state is the one the body left, and the loop goes on with the next record *)
   Lemma exec_rules_next fuel r rules i done f fl u s f' u1 s1 u2 s2 :
-    eval_pat U step enter e fuel r i f u s = inr (true, f', u1, s1) -> has_body r = true ->
+    eval_pat U step enter e fuel r i f u s = PVal true f' u1 s1 -> has_body r = true ->
     run U step e fuel (enter (BBody i) u1) s1 = ROk ONext u2 s2 ->
     exec_rules U step enter e fuel (r :: rules) i done (f :: fl) u s = LCont u2 s2 (rev (f' :: done) ++ fl).
   Proof. intros HP HB HR. cbn [exec_rules]. rewrite HP, HB, HR. reflexivity. Qed.
 
   Lemma exec_rules_nextfile fuel r rules i done f fl u s f' u1 s1 u2 s2 :
-    eval_pat U step enter e fuel r i f u s = inr (true, f', u1, s1) -> has_body r = true ->
+    eval_pat U step enter e fuel r i f u s = PVal true f' u1 s1 -> has_body r = true ->
     run U step e fuel (enter (BBody i) u1) s1 = ROk ONextfile u2 s2 ->
     exec_rules U step enter e fuel (r :: rules) i done (f :: fl) u s = LCont u2 (drop_file s2) (rev (f' :: done) ++ fl).
   Proof. intros HP HB HR. cbn [exec_rules]. rewrite HP, HB, HR. reflexivity. Qed.
 
   (* exit in the body of a rule or in a pattern: execActions returns at once *)
   Lemma exec_rules_exit fuel r rules i done f fl u s f' u1 s1 u2 s2 n :
-    eval_pat U step enter e fuel r i f u s = inr (true, f', u1, s1) -> has_body r = true ->
+    eval_pat U step enter e fuel r i f u s = PVal true f' u1 s1 -> has_body r = true ->
     run U step e fuel (enter (BBody i) u1) s1 = ROk (OExit n) u2 s2 ->
     exec_rules U step enter e fuel (r :: rules) i done (f :: fl) u s = LStop (OExit n) u2 s2.
   Proof. intros HP HB HR. cbn [exec_rules]. rewrite HP, HB, HR. reflexivity. Qed.
+
+  (* next / nextfile reached from a pattern expression (through a function it calls): the record is
+     abandoned exactly as from a rule body; the rule's range flag keeps the value it had *)
+  Lemma exec_rules_skip fuel r rules i done f fl u s f' u1 s1 :
+    eval_pat U step enter e fuel r i f u s = PSkip f' u1 s1 ->
+    exec_rules U step enter e fuel (r :: rules) i done (f :: fl) u s = LCont u1 s1 (rev (f' :: done) ++ fl).
+  Proof. intros HP. cbn [exec_rules]. rewrite HP. reflexivity. Qed.
+
+  Lemma exec_rules_pat_next fuel r rules i done f fl u s u1 s1 :
+    rk r = PExpr ->
+    run U step e fuel (enter (BPat i false) u) s = ROk ONext u1 s1 ->
+    exec_rules U step enter e fuel (r :: rules) i done (f :: fl) u s = LCont u1 s1 (rev (f :: done) ++ fl).
+  Proof. intros Hk HR. apply exec_rules_skip. unfold eval_pat, run_pat. rewrite Hk, HR. reflexivity. Qed.
+
+  Lemma exec_rules_pat_nextfile fuel r rules i done f fl u s u1 s1 :
+    rk r = PExpr ->
+    run U step e fuel (enter (BPat i false) u) s = ROk ONextfile u1 s1 ->
+    exec_rules U step enter e fuel (r :: rules) i done (f :: fl) u s = LCont u1 (drop_file s1) (rev (f :: done) ++ fl).
+  Proof. intros Hk HR. apply exec_rules_skip. unfold eval_pat, run_pat. rewrite Hk, HR. reflexivity. Qed.
+
+  (* the same from the start pattern of a closed range (flag stays off) and from the stop pattern of an
+     open range (flag stays on) *)
+  Lemma exec_rules_range_start_next fuel r rules i done fl u s u1 s1 :
+    rk r = PRange ->
+    run U step e fuel (enter (BPat i false) u) s = ROk ONext u1 s1 ->
+    exec_rules U step enter e fuel (r :: rules) i done (false :: fl) u s = LCont u1 s1 (rev (false :: done) ++ fl).
+  Proof. intros Hk HR. apply exec_rules_skip. unfold eval_pat, run_pat. rewrite Hk, HR. reflexivity. Qed.
+
+  Lemma exec_rules_range_stop_next fuel r rules i done fl u s u1 s1 :
+    rk r = PRange ->
+    run U step e fuel (enter (BPat i true) u) s = ROk ONext u1 s1 ->
+    exec_rules U step enter e fuel (r :: rules) i done (true :: fl) u s = LCont u1 s1 (rev (true :: done) ++ fl).
+  Proof. intros Hk HR. apply exec_rules_skip. unfold eval_pat, run_pat. rewrite Hk, HR. reflexivity. Qed.
 
   (* after nextfile the rest of the current file is out of the plan: the next record comes from the next operand *)
   Lemma drop_file_plan s : plan e (drop_file s) = planF e (argv s) (argc s) (idx s) (had s) (stdin s).
@@ -414,15 +447,8 @@ End Control.
 
 Definition name_char (c : Z) : bool := is_alpha_ c || is_digit c.
 
-Lemma upto_lf_id : forall v, forallb (fun c => negb (c =? 10)) v = true -> upto_lf v = v.
-Proof.
-  induction v as [|c v IH]; intros H; cbn [upto_lf]; [reflexivity|].
-  cbn [forallb] in H. apply andb_true_iff in H as [Hc Hv].
-  destruct (c =? 10); [discriminate|]. rewrite IH by exact Hv. reflexivity.
-Qed.
-
 Lemma split_name_spec : forall rest acc v,
-  forallb name_char rest = true -> split_name (rest ++ 61 :: v) acc = Some (rev acc ++ rest, upto_lf v).
+  forallb name_char rest = true -> split_name (rest ++ 61 :: v) acc = Some (rev acc ++ rest, v).
 Proof.
   induction rest as [|c rest IH]; intros acc v H; cbn [app split_name].
   - rewrite Z.eqb_refl, app_nil_r. reflexivity.
@@ -432,12 +458,11 @@ Proof.
     unfold name_char in Hc. rewrite Hc. rewrite IH by exact Hr. cbn [rev]. rewrite <- app_assoc. reflexivity.
 Qed.
 
-(* an operand name=value with a well-formed name is an assignment of exactly that value,
-   provided the value contains no line feed *)
+(* an operand name=value with a well-formed name is an assignment of exactly that value, whatever
+   bytes the value contains (line feeds included) *)
 Lemma parse_assign_spec c rest v :
-  is_alpha_ c = true -> forallb name_char rest = true -> forallb (fun c => negb (c =? 10)) v = true ->
+  is_alpha_ c = true -> forallb name_char rest = true ->
   parse_assign (c :: rest ++ 61 :: v) = Some (c :: rest, v).
 Proof.
-  intros Hc Hr Hv. cbn [parse_assign]. rewrite Hc, split_name_spec by exact Hr.
-  rewrite upto_lf_id by exact Hv. reflexivity.
+  intros Hc Hr. cbn [parse_assign]. rewrite Hc, split_name_spec by exact Hr. reflexivity.
 Qed.
